@@ -334,6 +334,33 @@ def classify_exc(exc):
     return type(exc).__name__
 
 
+def relayout(obj, how):
+    """The same values in another memory layout (Fortran order / a strided view of a larger array): writers may not depend on it."""
+    def conv(a):
+        a = np.asarray(a)
+        if a.ndim < 2 or a.dtype.kind not in "fi":
+            return a
+        if how == 1:
+            return np.asfortranarray(a)
+        big = np.zeros(tuple(2 * n for n in a.shape), dtype=a.dtype)
+        view = big[tuple(slice(None, None, 2) for _ in a.shape)]
+        view[...] = a
+        return view
+    from iodata.utils import Cube
+    for name in ("atcoords", "atgradient", "athessian", "cellvecs"):
+        if getattr(obj, name, None) is not None:
+            setattr(obj, name, conv(getattr(obj, name)))
+    if obj.cube is not None:
+        obj.cube = Cube(origin=obj.cube.origin, axes=conv(obj.cube.axes), data=conv(obj.cube.data))
+    for name in ("one_rdms", "one_ints", "two_ints"):
+        d = getattr(obj, name, None)
+        if d:
+            setattr(obj, name, {k: conv(v) for k, v in d.items()})
+    if obj.extra and "polarizability_tensor" in obj.extra:
+        obj.extra = dict(obj.extra, polarizability_tensor=conv(obj.extra["polarizability_tensor"]))
+    return obj
+
+
 def roundtrip(task):
     fmt, natom, present, mag, seed, stores = task
     from iodata import api
@@ -346,6 +373,9 @@ def roundtrip(task):
         with warnings.catch_warnings():
             warnings.simplefilter("ignore")
             obj = build(fmt, rng, natom, present, mag)
+            if seed % 3:
+                obj = relayout(obj, seed % 3)
+            ev["layout"] = ["C", "F", "strided"][seed % 3]
             path = os.path.join(tmp, O.SUFFIX[real_fmt(fmt)])
             try:
                 api.dump_one(obj, path, fmt=real_fmt(fmt), **io_kwargs(fmt))
